@@ -7,7 +7,7 @@ ID = "C03"
 LEVEL = "fault_enumeration"
 ENGINE = "E2 detgrid"
 TECHNIQUE = ("Hypothesis-generated share placements x share damage x server fault plans (down, erroring, failing n-th read, disconnect after j calls, late) x delivery "
-             "schedules with generator-chosen timer firings; bounded-exhaustive damage subsets for k<=2,N<=3; two-sided oracle from an independent good-share count")
+             "schedules with generator-chosen timer firings; bounded-exhaustive damage subsets for k<=2,N<=3; two-sided oracle from an independent good-share count; optional second phase (late answers delivered, the shares the first read used go bad, the same node reads again)")
 RULE = ("each case: a file (k<=4, N<=6, 1-4 segments) whose N shares are re-placed on 1..N+3 servers by an explicit generated map (several shares per server, duplicates, "
         "unplaced shares), then per-share damage (12 kinds: deleted, truncated, every block flipped, bad version, single flips in data/block hashes/share hashes/UEB/"
         "ciphertext hashes/unused region) and per-server faults (7 kinds), then a full read from a fresh client under a drawn schedule in which negative choices fire "
